@@ -344,7 +344,18 @@ func verifC10MaxSeek(t *testing.T) int64 {
 	return lo
 }
 
+// verifC10RunChild runs one upload in a child process.  "hang" is a wall-clock verdict (the only one in this driver): a
+// child that did not answer within 15 s is run once more, alone in its slot, with 90 s, so that a loaded machine does not
+// turn a slow child into a reported hang; a real non-termination hangs both times.
 func verifC10RunChild(idx int, mode string) (string, string) {
+	res, layers := verifC10RunChildOnce(idx, mode, 15*time.Second)
+	if res == "hang" {
+		res, layers = verifC10RunChildOnce(idx, mode, 90*time.Second)
+	}
+	return res, layers
+}
+
+func verifC10RunChildOnce(idx int, mode string, limit time.Duration) (string, string) {
 	cmd := exec.Command(os.Args[0], "-test.run", "^TestVerifC10APIChild$", "-test.v")
 	cmd.Env = append(os.Environ(), fmt.Sprintf("VERIF_C10_CHILD=%d", idx), "VERIF_C10_MODE="+mode, "OLLAMA_DEBUG=0")
 	var buf bytes.Buffer
@@ -357,7 +368,7 @@ func verifC10RunChild(idx int, mode string) (string, string) {
 	res := ""
 	select {
 	case <-done:
-	case <-time.After(15 * time.Second):
+	case <-time.After(limit):
 		cmd.Process.Kill()
 		<-done
 		res = "hang"
